@@ -129,13 +129,15 @@ fn fam_core(o: &mut Out, quick: bool, rng: &mut Rng) {
             let mut c = mk(); c.max_steps = Some(3); variants.push((c, "max_steps3"));
             let mut c = mk(); c.max_steps = Some(1); c.dense = true; variants.push((c, "max_steps1"));
             let mut c = mk(); c.rtol = vec![1e-7]; c.atol = vec![1e-10]; variants.push((c, "tight"));
+            let mut c = mk(); c.rtol = vec![1e-8]; c.atol = vec![1e-8]; c.first_step = Some(span); variants.push((c, "tight+first_step=span"));
+            let mut c = mk(); c.rtol = vec![1e-8]; c.atol = vec![1e-8]; c.first_step = Some(span * 2.5); c.max_step = Some(f64::INFINITY); variants.push((c, "tight+first_step>span"));
             if *m == "RADAU" || *m == "BDF" {
                 let mut c = mk(); c.jac = "user".into(); c.dense = true; variants.push((c, "userjac"));
             }
             if p.dim() > 1 {
                 let mut c = mk(); c.rtol = vec![1e-4; p.dim()]; c.atol = vec![1e-7; p.dim()]; variants.push((c, "vector_tol"));
             }
-            let keep = if quick { 10 } else { variants.len() };
+            let keep = if quick { 12 } else { variants.len() };
             // quick: rotate which variants are kept so that all of them occur across methods/spans
             let rot = (mi * 5 + si * 3) % variants.len();
             for i in 0..variants.len().min(keep) {
@@ -143,6 +145,16 @@ fn fam_core(o: &mut Out, quick: bool, rng: &mut Rng) {
                 c.tags = vec![tag.to_string()];
                 o.run(c);
             }
+        }
+    }
+    // small non-zero x0 with a comparatively large first step: x0 + h lies in a higher binade than x0
+    for m in METHODS {
+        for (x0, xend, fs) in [(1e-3, 2.001, 0.05), (-1e-3, -2.001, -0.5), (1e-2, 1.01, 0.5), (0.3e-3, -1.0, -0.05)] {
+            let mut c = base(m, Problem::new("decay", 1.0), x0, xend);
+            c.first_step = Some(fs);
+            c.dense = true;
+            c.tags = vec!["small_x0+first_step".into()];
+            o.run(c);
         }
     }
     // degenerate front-end cases
@@ -527,7 +539,7 @@ fn fam_teval(o: &mut Out, quick: bool, rng: &mut Rng) {
         let dir = if xend > x0 { 1.0 } else { -1.0 };
         let mut c = base(m, p, x0, xend);
         c.dense = true;
-        if m == "RK4" { c.first_step = Some((xend - x0) / 12.0); }
+        if m == "RK4" { c.first_step = Some((xend - x0) / if ci % 4 < 2 { 12.0 } else { 11.3 }); }
         c.tags = vec!["grid_run".into()];
         let a = o.run(c.clone());
         let grid: Vec<f64> = match &a.sol { Some(s) => s.t.clone(), None => continue };
